@@ -122,8 +122,8 @@ func genC04Proto(seed uint64, tier string) Scenario {
 				method := genMethodString(g, s.Service)
 				more, oneway := g.Pct(15), g.Pct(10)
 				params := withCid(cid, g.ParamsObject(0))
-				if g.Pct(10) {
-					params = g.maybeParams(0)
+				if g.Pct(15) {
+					params = g.callParams()
 				}
 				if g.Pct(50) {
 					s.Scripts[cid] = Script{Actions: []Action{{Op: "reply", Params: `{"cid":` + quote(g.String(4)) + `}`}}}
